@@ -523,6 +523,11 @@ func valueEq(a, b Value) *Term {
 		if !types.Identical(x.T, y.T) {
 			return FalseT
 		}
+		// Go: comparing two interface values with identical dynamic types that are not
+		// comparable (slice, map, func, or a struct/array containing one) is a run-time panic
+		if !types.Comparable(x.T) {
+			panic(pathEnd{"panic: runtime error: comparing uncomparable type " + x.T.String()})
+		}
 		return valueEq(x.V, y.V)
 	case MapV:
 		y := b.(MapV)
